@@ -94,6 +94,20 @@ func genC03Program(r *R, ex map[string]bool) *Program {
 	ctx.M = append(ctx.M, KV{"zam", &Val{T: "map", M: []KV{{"m", str("vm")}, {"z", str("vz")}, {"a", str("va")}}}})
 	ctx.M = append(ctx.M, KV{"rows", &Val{T: "list", L: []*Val{row(1, 9, 5, "x"), row(2, 3, 5, "w"), row(0, 7, 6, "z"), row(2, 1, 4, "y")}}})
 	maps := []string{"m1", "m2", "mi", "p1.Meta", "nm", "nm.b", "si", "mx", "cs", "cs2", "fm", "bm", "km", "gm", "gp.Meta", "em", "nk", "tie", "ties", "tie", "ties"}
+	// what this engine can do with which map (anything else ends the render in an error or a recovered panic, the
+	// same in every environment, and explores nothing): receivers of merge must be untyped, merged-in maps must have
+	// string keys, json_encode needs string or integer keys, max/min need numeric values
+	untyped := []string{"m1", "p1.Meta", "nm", "nm.b", "cs", "gm", "gp.Meta", "em", "nk", "tie", "zam"}
+	strKeyed := append(append([]string{}, untyped...), "m2", "si", "cs2", "ties")
+	jsonable := append(append([]string{}, strKeyed...), "mi")
+	numeric := []string{"si", "tie", "ties", "nm.b"}
+	rarely := func(pct int, unusual, usual string) string {
+		if r.P(pct) {
+			return unusual
+		}
+		return usual
+	}
+	_ = jsonable
 	hashLit := func() string {
 		n := r.Range(2, 4)
 		keys := []string{"a", "b", "c", "d"}
@@ -127,9 +141,13 @@ func genC03Program(r *R, ex map[string]bool) *Program {
 			if strings.HasPrefix(m, "{") {
 				m = "(" + m + ")"
 			}
-			return "{{ " + m + "|" + pick(r, []string{"first", "keys|join(',')", "join(',')", "length", "json_encode", "keys|first", "keys|last", "sort|join(',')", "keys|sort|join(',')", "default('d')|json_encode", "keys|reverse|join(',')", "keys|slice(0, 2)|join(',')"}) + " }}"
+			return "{{ " + m + "|" + pick(r, []string{"first", "keys|join(',')", "join(',')", "length", "json_encode", "keys|first", "keys|last", rarely(10, "sort|join(',')", "keys|join('')"), "keys|sort|join(',')", "default('d')|json_encode", "keys|reverse|join(',')", "keys|slice(0, 2)|join(',')"}) + " }}"
 		case 4:
-			return "{{ " + pick(r, maps) + "|merge(" + anyMap() + ")|" + pick(r, []string{"json_encode", "keys|join(',')", "length", "first"}) + " }}"
+			arg := pick(r, strKeyed)
+			if r.P(25) {
+				arg = hashLit()
+			}
+			return "{{ " + rarely(6, pick(r, maps), pick(r, untyped)) + "|merge(" + rarely(6, anyMap(), arg) + ")|" + pick(r, []string{"json_encode", "keys|join(',')", "length", "first"}) + " }}"
 		case 5:
 			n := r.Range(1, 5)
 			var f strings.Builder
@@ -155,12 +173,15 @@ func genC03Program(r *R, ex map[string]bool) *Program {
 		case 9:
 			return "{% set h = " + hashLit() + " %}{% for k, v in h %}{{ k }}{{ v }}{% endfor %}{{ h|keys|join('') }}"
 		case 10:
-			return "{{ '" + pick(r, []string{"a", "k1", "zz", "one"}) + "' in " + pick(r, []string{"m1", "m2", "si", "m1|keys", "si|keys"}) + " ? 'in' : 'out' }}"
+			return "{{ '" + pick(r, []string{"a", "k1", "zz", "one"}) + "' in " + pick(r, []string{"m1", "m2", "si", "(m1|keys)", "(si|keys)"}) + " ? 'in' : 'out' }}"
 		case 11:
 			return "{% for k, v in " + pick(r, maps) + " %}{% for k2, v2 in " + pick(r, maps) + " %}{{ k }}{{ k2 }}{% endfor %}/{% endfor %}"
 		case 12:
-			return "{{ " + pick(r, maps) + "|json_encode }}"
+			return "{{ " + rarely(5, pick(r, maps), pick(r, jsonable)) + "|json_encode }}"
 		case 19:
+			if !r.P(20) {
+				return g.seg(1)
+			}
 			// filters taking a hash argument whose entries interact (prefix-overlapping keys, keys that are values of others)
 			return "{{ " + pick(r, []string{"':id :id_post'", "'%title %titlecase'", "s2", "'ab abc a'"}) + "|replace(" + pick(r, []string{"{':id': '1', ':id_post': '2', ':i': '3'}", "{'%title': 'T', '%titlecase': 'C'}", "{'a': 'b', 'b': 'a', 'ab': 'c'}", "{'a': 'x', 'abc': 'y', 'ab': 'z'}"}) + ") }}"
 		case 18:
@@ -170,10 +191,16 @@ func genC03Program(r *R, ex map[string]bool) *Program {
 			// `with` values that refer to other keys of the same hash (and to outer variables of the same name)
 			return "{% set a = 'A0' %}{% set b = 'B0' %}{% include 'part0' with {'a': 1, 'b': a, 'c': b, 'd': c|default('x')} %}"
 		case 15:
-			return "{{ merge(" + pick(r, maps) + ", " + anyMap() + ")|" + pick(r, []string{"json_encode", "keys|join(',')", "length", "join(',')"}) + " }}"
+			return "{{ merge(" + rarely(6, pick(r, maps), pick(r, untyped)) + ", " + rarely(6, anyMap(), pick(r, strKeyed)) + ")|" + pick(r, []string{"json_encode", "keys|join(',')", "length", "join(',')"}) + " }}"
 		case 16:
 			m := pick(r, maps)
-			return "{{ " + pick(r, []string{"max(" + m + ")", "min(" + m + ")", m + "|url_encode", m + " ~ ''", m + "|last", m + "|slice(0, 2)|json_encode", m + "|sort|join(',')", m + "|reverse|json_encode", m + "|merge(" + pick(r, maps) + ")|join(',')", m + "|keys|length", m + "|first|json_encode", "(" + m + "|length) ~ (" + m + "|keys|first)"}) + " }}"
+			nm := pick(r, numeric)
+			um := pick(r, untyped)
+			if r.P(12) {
+				// forms this engine answers with an error for maps (kept rare: they matter when a change starts to support them)
+				return "{{ " + pick(r, []string{"max(" + m + ")", "max(" + nm + ")", "min(" + nm + ")", m + "|last", m + "|slice(0, 2)|json_encode", m + "|sort|join(',')", m + "|reverse|json_encode", m + "|merge(" + pick(r, maps) + ")|join(',')"}) + " }}"
+			}
+			return "{{ " + pick(r, []string{m + "|url_encode", m + " ~ ''", um + "|merge(" + pick(r, strKeyed) + ")|join(',')", m + "|keys|length", m + "|first|json_encode", "(" + m + "|length) ~ (" + m + "|keys|first)", m + "|keys|sort|join(',')", m + "|keys|reverse|join(',')"}) + " }}"
 		case 17:
 			return "{% macro mm(name = 'q', id = name, label = id) %}[{{ name }}|{{ id }}|{{ label }}]{% endmacro %}{% set name = 'outer' %}{{ mm() }}{{ mm('u') }}{{ _self.mm('u', 'v') }}"
 		case 21:
